@@ -78,8 +78,8 @@ let gen_ginmeta r : gin_metadata =
     ginm_pad = fld r 32; ginm_nentries = fld r 64; ginm_version = (if rbool r then zi 2 else fld r 32) }
 
 (* [meta]: Some b forces the method's "this is the metapage" mark; None leaves it random (GiST has none) *)
-let gen_page r (a : am) ~(meta : bool option) : ipage * string =
-  let op, otag = gen_opaque r a ~meta in
+let gen_page ?op r (a : am) ~(meta : bool option) : ipage * string =
+  let op, otag = match op with Some o -> o, "fixed" | None -> gen_opaque r a ~meta in
   let special = 8192 - opq_size a in
   let is_meta = (match op with
       | OpBT (_, _, _, f, _) | OpHash (_, _, _, f) | OpGIN (_, _, f) -> zint f land 8 <> 0
@@ -175,7 +175,25 @@ let corpus () =
           | SPGiST -> OpSPG (zi f, fld r 16, fld r 16)
           | BRIN -> OpBRIN (fld r 16, fld r 16, zi f, zi (0xF091 + (f mod 3))) in
         run_special ~tag:("flags9_" ^ am_str a) ~s:(expected_special op) a (enc_opaque op) (if f mod 5 = 0 then rbytes r 7 else [])
-      done) ams
+      done) ams;
+  (* classification at every boundary of the trailer word: each listed B-tree cycle id on a metapage and on
+     an ordinary page, the three BRIN page types, GIN metapages whose flag word is next to an identifier word *)
+  let detect_fixed tag a op =
+    let p, _ = gen_page ~op r a ~meta:None in
+    check_page p;
+    if not (first_ok_b p) then failwith "corpus: first page not first_ok";
+    run_detect ~tag ~s:(zs (am_code a)) (enc_page p) (if rbool r then rbytes r 9 else []) in
+  Array.iter (fun cyc ->
+      List.iter (fun f -> detect_fixed "corpus_detect_btree" BTree (OpBT (fld r 32, fld r 32, fld r 32, zi f, zi cyc))) [ 8; 3; 0xFFFF; 0xFFF7 ])
+    [| 0; 1; 0xFF00; 0xFF01; 0xFF7E; 0xFF7F; 0xF090; 0xF091; 0xF092; 0xF093; 0xF094; 0x7FFF; 0x8000 |];
+  List.iter (fun t -> List.iter (fun f -> detect_fixed "corpus_detect_brin" BRIN (OpBRIN (fld r 16, fld r 16, zi f, zi t))) [ 0; 1; 0xFFFF ])
+    [ 0xF091; 0xF092; 0xF093 ];
+  List.iter (fun f -> detect_fixed "corpus_detect_gin" GIN (OpGIN (fld r 32, fld r 16, zi f)))
+    [ 8; 9; 0x18; 0xFFFF; 0xFF88; 0xFF89; 0xFF8A; 0xF099; 0xF09A; 0xF09B; 0x0808 ];
+  List.iter (fun f ->
+      detect_fixed "corpus_detect_hash" Hash (OpHash (fld r 32, fld r 32, fld r 32, zi f));
+      detect_fixed "corpus_detect_gist" GiST (OpGiST (fld r 32, fld r 32, fld r 32, zi f));
+      detect_fixed "corpus_detect_spgist" SPGiST (OpSPG (zi f, fld r 16, fld r 16))) [ 0; 1; 2; 8; 0xFFFF; 0xF091; 0xFF80 ]
 
 (* ---------- random cases ---------- *)
 let gen_case r k =
@@ -185,7 +203,7 @@ let gen_case r k =
     (* whole files; sizes: mostly 1..6 pages, sometimes 7..40, a few at 200 *)
     (* the extracted model recomputes cap (a list length over the rest of the file) at every slice
        expression, so its cost grows with pages^2: 200-page files only in the thorough tier *)
-    let n = if k > 0 && k mod 5000 = 0 then 200 else if k mod 1000 = 0 then 24
+    let n = if k = 5000 then 200 else if k mod 1000 = 0 then 24
       else match rint r 20 with 0 | 1 -> 1 | 2 | 3 -> 2 | 4 -> 7 + rint r 10 | _ -> 1 + rint r 6 in
     let first_meta = rint r 8 <> 0 in
     let f = gen_file r a n ~first_meta in
